@@ -1376,6 +1376,9 @@ func main() {
 	if all || sections["grouping"] {
 		groupingSection()
 	}
+	if all || sections["shared"] {
+		sharedSection()
+	}
 	keys := make([]string, 0, len(stats))
 	for k := range stats {
 		keys = append(keys, k)
